@@ -321,6 +321,23 @@ def run(tier: str) -> int:
                 ssc = np.where(rr[None, :] == 0, 1.0, ssc)
                 J.cmp(func, cls, got, exp["solid"][:, sel], ssc, case)
                 rep.evaluated(got.size, (func, cls))
+                # "for all points": the same spherical points handed over in the other floating types a caller may hold
+                # (extended precision is the type the library itself computes its harmonics in), evaluated twice on the
+                # same array: same values, and the second evaluation sees the same points as the first
+                for dt in (np.longdouble, np.float32):
+                    sp = np.stack([rr, th, ph], axis=1).astype(dt)
+                    keep = sp.copy()
+                    g1 = _call(gu.solid_harmonics, lt, sp)
+                    g2 = _call(gu.solid_harmonics, lt, sp)
+                    name = f"{func}[{np.dtype(dt).name} points]"
+                    if g1.shape != got.shape or not np.array_equal(sp, keep) or not np.array_equal(g1, g2, equal_nan=True):
+                        rep.violation(f"{name}:{cls}:second-evaluation-differs",
+                                      f"{func}(l_max={lt}, points of dtype {np.dtype(dt).name}) evaluated twice on the same array: "
+                                      f"points changed: {not np.array_equal(sp, keep)}, results differ: "
+                                      f"{g1.shape != got.shape or not np.array_equal(g1, g2, equal_nan=True)}", case(0))
+                    elif dt is np.longdouble:
+                        J.cmp(name, cls, g1, exp["solid"][:, sel], ssc, case)
+                    rep.evaluated(g1.size, (name, cls))
         except Exception as e:
             rep.violation(f"{func}:{cls}:exception", f"{func} raised {type(e).__name__}: {e}", case(0))
     # annotate (l,m) of the failing rows
